@@ -326,7 +326,7 @@ def check(prop, tier, seed):
                 for gen in cfg["gens"]:
                     for sh_i in range(nshards):
                         jobs.append(ex.submit(correspond_shard, binp, pf, gen, scale, seed, sh_i, nshards,
-                                              cfg.get("timeout", 1500)))
+                                              cfg.get("timeout", 1500 if thorough else 300)))
             results = [j.result() for j in jobs]
         # corpus of minimised past failures: always run, in every profile
         cdir = os.path.join(ROOT, "corpus", prop)
